@@ -27,9 +27,9 @@ impl<'a, F: Frame> Signal for Dyn<'a, F> {
 // ------------------------------------------------------------------- the AST
 #[derive(Clone, Copy, Debug, PartialEq, Eq, Hash)]
 pub enum Leaf {
-    Probe(u16),
-    Iter(u16),
-    Inter(u16), // number of interleaved samples
+    Probe(u32),
+    Iter(u32),
+    Inter(u32), // number of interleaved samples
     Equil,
     Gen,
     GenMut,
@@ -48,7 +48,7 @@ pub enum Un {
     OffsetPC,
     Clip,
     Inspect,
-    Delay(u16),
+    Delay(u32),
 }
 #[derive(Clone, Copy, Debug, PartialEq, Eq, Hash)]
 pub enum Bin {
@@ -152,7 +152,7 @@ fn parse_node(s: &str) -> Option<(Node, &str)> {
     let end = s.find(|c: char| c == '(' || c == ',' || c == ')').unwrap_or(s.len());
     let head = &s[..end];
     let rest = &s[end..];
-    let num = |p: &str| head.strip_prefix(p).and_then(|x| x.parse::<u16>().ok());
+    let num = |p: &str| head.strip_prefix(p).and_then(|x| x.parse::<u32>().ok());
     if !rest.starts_with('(') {
         let l = match head {
             "equil" => Leaf::Equil,
@@ -767,7 +767,17 @@ where
                 Node::B(_, l, _) => q = l,
             }
         }
-        for j in 0..=h {
+        // (every prefix length for ordinary horizons; a structured set for the very long ones)
+        let js: Vec<usize> = if h <= 3000 {
+            (0..=h).collect()
+        } else {
+            let mut v = vec![0, 1, 2, spine_delay.saturating_sub(1), spine_delay, spine_delay + 1, spine_delay + len as usize, h / 2, h - 1, h];
+            v.retain(|&j| j <= h);
+            v.sort();
+            v.dedup();
+            v
+        };
+        for j in js {
             let (mut probe, c) = Probe::new((0..len as usize).map(|k| F::coded(1, k)).collect());
             {
                 let mut w = Watch::default();
@@ -904,7 +914,8 @@ where
     }
     // 5. take(n) yields exactly n frames, whatever the exhaustion state
     let l = if m.t == usize::MAX { 2 } else { m.t };
-    for n in 0..=l + 2 {
+    let ns: Vec<usize> = if l <= 3000 { (0..=l + 2).collect() } else { vec![0, 1, 2, l / 2, l - 1, l, l + 1, l + 2] };
+    for n in ns {
         let mut w = Watch::default();
         let sig = build_tree::<F>(p, &mut Ext(None), &mut w, 0, &mut 0, h + 4);
         let mut it = sig.take(n);
@@ -924,7 +935,7 @@ where
 
 // ------------------------------------------------------------- enumeration
 pub fn leaves(quick: bool, ch: usize) -> Vec<Leaf> {
-    let ch = ch as u16;
+    let ch = ch as u32;
     if quick {
         vec![Leaf::Probe(0), Leaf::Probe(1), Leaf::Probe(3), Leaf::Iter(2), Leaf::Inter(2 * ch + 1), Leaf::Equil, Leaf::GenMut]
     } else {
@@ -992,7 +1003,7 @@ pub fn depth2(ls: &[Leaf]) -> Vec<Node> {
 
 /// scale probes: long sources and long delays (byte boundary included) under every adaptor
 pub fn long_programs(ch: usize) -> Vec<Node> {
-    let ch = ch as u16;
+    let ch = ch as u32;
     let mut v = depth1(&[Leaf::Probe(70), Leaf::Iter(300), Leaf::Inter(64 * ch + ch - 1), Leaf::GenMut]);
     let l = |x: Leaf| Box::new(Node::L(x));
     // amplitudes beyond full scale (float frames legitimately exceed [-1, 1]): gain 4 below and above
@@ -1011,6 +1022,16 @@ pub fn long_programs(ch: usize) -> Vec<Node> {
             v.push(big(Box::new(Node::B(b, l(leaf), l(Leaf::Iter(2))))));
         }
     }
+    // 16-bit boundary: delays of 2^16 +- 1 frames run to the end (a count kept in 16 bits would wrap)
+    for k in [65535u32, 65536, 65537] {
+        let d = |c: Box<Node>| Node::U(Un::Delay(k), c);
+        v.push(d(l(Leaf::Probe(3))));
+        v.push(d(l(Leaf::Iter(2))));
+        v.push(Node::U(Un::Map, Box::new(d(l(Leaf::Probe(3))))));
+        v.push(d(Box::new(Node::U(Un::Clip, l(Leaf::Probe(3))))));
+        v.push(Node::B(Bin::Add, Box::new(d(l(Leaf::Probe(3)))), l(Leaf::Probe(70))));
+        v.push(d(Box::new(d(l(Leaf::Probe(2))))));
+    }
     // the smallest threshold: clip_amp(0) limits every channel to equilibrium
     for leaf in [Leaf::Probe(3), Leaf::Iter(2), Leaf::GenMut] {
         v.push(Node::U(Un::ClipZero, l(leaf)));
@@ -1023,7 +1044,7 @@ pub fn long_programs(ch: usize) -> Vec<Node> {
             v.push(Node::U(Un::ClipZero, Box::new(Node::B(b, l(leaf), l(Leaf::Iter(2))))));
         }
     }
-    for k in [31u16, 255, 256, 257, 1000] {
+    for k in [31u32, 255, 256, 257, 1000] {
         let d = |c: Box<Node>| Node::U(Un::Delay(k), c);
         for leaf in [Leaf::Probe(3), Leaf::Probe(70), Leaf::Iter(2), Leaf::GenMut] {
             v.push(d(l(leaf)));
@@ -1044,7 +1065,7 @@ pub fn long_programs(ch: usize) -> Vec<Node> {
 /// every interleaved sample count 0..=3N+1 as a bare leaf and under one adaptor
 pub fn interleaved_lengths(ch: usize) -> Vec<Node> {
     let mut v = Vec::new();
-    for ns in 0..=(3 * ch + 1) as u16 {
+    for ns in 0..=(3 * ch + 1) as u32 {
         v.push(Node::L(Leaf::Inter(ns)));
         v.push(Node::U(Un::ScaleHalf, Box::new(Node::L(Leaf::Inter(ns)))));
         v.push(Node::U(Un::Delay(1), Box::new(Node::L(Leaf::Inter(ns)))));
@@ -1173,8 +1194,8 @@ pub fn wide_case<const N: usize>(n: usize, r: usize) -> Bad {
     None
 }
 
-pub const WIDE_QUICK: [usize; 12] = [4, 16, 31, 32, 33, 64, 255, 256, 257, 300, 512, 1000];
-pub const WIDE_THOROUGH: [usize; 8] = [127, 128, 129, 1024, 4096, 65535, 65536, 65537];
+pub const WIDE_QUICK: [usize; 15] = [4, 16, 31, 32, 33, 64, 255, 256, 257, 300, 512, 1000, 65535, 65536, 65537];
+pub const WIDE_THOROUGH: [usize; 5] = [127, 128, 129, 1024, 4096];
 
 pub fn wide_dispatch(ch: usize, n: usize, r: usize) -> Bad {
     macro_rules! d {
